@@ -312,17 +312,6 @@ Proof.
     destruct Hc as [f [Ef Hf]]. subst c0. split; [reflexivity|]. apply fact_constrains; assumption.
 Qed.
 
-Lemma einv_enc_loop fuel falses : forall st work st',
-  EInv st -> Forall task_ok work -> enc_loop U P fuel falses st work = Some st' -> EInv st'.
-Proof.
-  induction fuel as [|f IH]; intros st work st' H Hw; destruct work as [|t rest]; simpl;
-    try (intro E; inversion E; subst; exact H); try discriminate.
-  destruct (run_one U P falses st t) as [st1 w1] eqn:E1. intro E.
-  inversion Hw as [|? ? Ht Hrest]. subst.
-  destruct (einv_run_one falses st t st1 w1 H Ht E1) as [H1 Hw1].
-  eapply IH; [exact H1 | | exact E]. apply Forall_app. split; assumption.
-Qed.
-
 Lemma queue_solvables_tasks sos : forall st st' w, queue_solvables st sos = (st', w) -> Forall task_ok w.
 Proof.
   induction sos as [|so sos IH]; intros st st' w; simpl.
@@ -332,38 +321,73 @@ Proof.
     unfold queue_solvable in E1. destruct (mem_so so (e_sols st)); inversion E1; repeat constructor.
 Qed.
 
-Lemma einv_encode fuel falses st sos st' : EInv st -> encode U P fuel falses st sos = Some st' -> EInv st'.
+(* ---------- picking a pending future ---------- *)
+
+Lemma optN_eqb_eq a b : optN_eqb a b = true <-> a = b.
 Proof.
-  intro H. unfold encode. destruct (queue_solvables st sos) as [st1 w] eqn:E1. intro E.
-  eapply einv_enc_loop; [eapply einv_queue_solvables; eauto | eapply queue_solvables_tasks; eauto | exact E].
+  destruct a as [x|], b as [y|]; simpl; try (split; [discriminate | intro H; discriminate H]); [|split; reflexivity].
+  rewrite N.eqb_eq. split; [intro; subst; reflexivity | intro H; inversion H; reflexivity].
 Qed.
 
-Lemma einv_enc_solve fuel evs : forall st tr st', EInv st -> enc_solve U P fuel st tr evs = Some st' -> EInv st'.
+Lemma task_eqb_eq a b : task_eqb a b = true <-> a = b.
 Proof.
-  induction evs as [|e evs IH]; intros st tr st' H; simpl.
-  - intro E. inversion E. subst. exact H.
-  - destruct e as [sos|s|e].
-    + destruct (encode U P fuel (falses_of tr) st sos) as [st1|] eqn:E1; [|discriminate].
-      apply IH. eapply einv_encode; eauto.
-    + apply IH. apply einv_register. exact H.
-    + apply IH. exact H.
+  destruct a, b; simpl; try (split; [discriminate | intro H; discriminate H]).
+  - rewrite optN_eqb_eq. split; [intro; subst; reflexivity | intro H; inversion H; reflexivity].
+  - rewrite N.eqb_eq. split; [intro; subst; reflexivity | intro H; inversion H; reflexivity].
+  - rewrite andb_true_iff, optN_eqb_eq, req_eqb_eq. split; [intros [? ?]; subst; reflexivity | intro H; inversion H; auto].
+  - rewrite andb_true_iff, optN_eqb_eq, N.eqb_eq. split; [intros [? ?]; subst; reflexivity | intro H; inversion H; auto].
 Qed.
 
-(* T1: for every provider, problem, cache contents, trail history and sequence of
-   encoder invocations, every clause the encoder model has added is a fact *)
-Theorem enc_facts fuel c evs st :
-  enc_solve U P fuel (estate0 c) [] evs = Some st ->
+Lemma remove_task_In t : forall w w', remove_task t w = Some w' -> forall x, In x w <-> x = t \/ In x w'.
+Proof.
+  induction w as [|y r IH]; intros w'; simpl; [discriminate|].
+  destruct (task_eqb y t) eqn:E.
+  - apply task_eqb_eq in E. subst y. intro H. inversion H. subst. intro x. split; intros [A|A]; auto.
+  - destruct (remove_task t r) as [r'|] eqn:Er; [|discriminate]. intro H. inversion H. subst.
+    intro x. simpl. rewrite (IH r' eq_refl x). tauto.
+Qed.
+
+Lemma remove_task_Forall {Q : task -> Prop} t w w' : remove_task t w = Some w' -> Forall Q w -> Q t /\ Forall Q w'.
+Proof.
+  intros H HF. rewrite Forall_forall in HF. split.
+  - apply HF. apply (remove_task_In t w w' H). left. reflexivity.
+  - apply Forall_forall. intros x Hx. apply HF. apply (remove_task_In t w w' H). right. exact Hx.
+Qed.
+
+Lemma einv_enc_run evs : forall st work tr st' work',
+  EInv st -> Forall task_ok work -> enc_run U P st work tr evs = Some (st', work') -> EInv st' /\ Forall task_ok work'.
+Proof.
+  induction evs as [|e evs IH]; intros st work tr st' work' H Hw; simpl.
+  - intro E. inversion E. subst. auto.
+  - destruct e as [sos|k|s|e].
+    + destruct work as [|x work0]; [|discriminate].
+      destruct (queue_solvables st sos) as [st1 w] eqn:E1. apply IH.
+      * eapply einv_queue_solvables; eauto.
+      * eapply queue_solvables_tasks; eauto.
+    + destruct (remove_task k work) as [work0|] eqn:Er; [|discriminate].
+      destruct (remove_task_Forall k work work0 Er Hw) as [Hk Hw0].
+      destruct (run_one U P (falses_of tr) st k) as [st1 w1] eqn:E1.
+      destruct (einv_run_one _ _ _ _ _ H Hk E1) as [H1 Hw1].
+      apply IH; [exact H1 | apply Forall_app; split; assumption].
+    + apply IH; [apply einv_register; exact H | exact Hw].
+    + apply IH; assumption.
+Qed.
+
+(* T1: for every provider, problem, cache contents, trail history, sequence of
+   encoder invocations AND completion order of the encoder's futures, every
+   clause the encoder model has added is a fact *)
+Theorem enc_facts c evs st work :
+  enc_run U P (estate0 c) [] [] evs = Some (st, work) ->
   forall x, In x (e_db st) -> factb U P (trk_idx (e_trk st)) x = true.
 Proof.
-  intros E. apply einv_facts. eapply einv_enc_solve; [apply einv0 | exact E].
+  intros E. apply einv_facts. eapply (einv_enc_run evs (estate0 c) [] [] st work); [apply einv0 | constructor | exact E].
 Qed.
-
 
 (* T1': the encoder never excludes a valid selection: every clause it adds is
    true in the assignment of every valid selection (Unsolvable can only be
    reported when there is none) *)
-Theorem enc_sound fuel c evs st S :
-  enc_solve U P fuel (estate0 c) [] evs = Some st -> valid U P S [] ->
+Theorem enc_sound c evs st work S :
+  enc_run U P (estate0 c) [] [] evs = Some (st, work) -> valid U P S [] ->
   forall x, In x (e_db st) -> cl_true (a_sel U (trk_idx (e_trk st)) S) (cl_lits x) = true.
 Proof.
   intros E Hv x Hx. apply (E1 U P (trk_idx (e_trk st)) HW S x Hv). eapply enc_facts; eauto.
